@@ -46,6 +46,9 @@ pub fn reset(fuel: usize) {
         NLITS = 0;
         UC_N = 0;
         ERRS = 0;
+        INT_OK = 0;
+        INT_CALLS = 0;
+        INT_UNMARKED = 0;
         AT_END = kani::any();
         IO_FAILED = kani::any();
         BLANKS_PENDING = kani::any();
@@ -258,6 +261,12 @@ pub fn clause_lits<L: Dimacs>(
 
 pub fn int<T: FromPrimitive>(_input: &mut LineReader) -> Parsed<T, String> {
     tick();
+    unsafe {
+        INT_CALLS += 1;
+        if _input.reader.mark() != _input.reader.position() {
+            INT_UNMARKED += 1;
+        }
+    }
     let k: u8 = kani::any();
     if k == 0 || !consume() {
         return Fallthrough;
@@ -270,12 +279,18 @@ pub fn int<T: FromPrimitive>(_input: &mut LineReader) -> Parsed<T, String> {
     kani::assume(t.is_some());
     unsafe {
         INT_RET = v;
+        if INT_OK < 4 {
+            INT_LOG[INT_OK] = v;
+        }
         INT_OK += 1;
     }
     Res(Ok(t.unwrap()))
 }
 pub static mut INT_RET: i64 = 0;
 pub static mut INT_OK: usize = 0;
+pub static mut INT_LOG: [i64; 4] = [0; 4];
+pub static mut INT_CALLS: usize = 0;
+pub static mut INT_UNMARKED: usize = 0; // int() called without the mark at the cursor (C08)
 
 pub fn unexpected(_input: &mut LineReader, _expected: &str) -> ParseError {
     tick();
